@@ -18,6 +18,12 @@ CLAIMS = {
  "C04": ("model_checking",
          "The layer state machine of Forward.tla (Write's bookkeeping, adjustLayer abstracted to up/down/none, limitSid) is checked exhaustively against L1-L6 over all flag sequences for VP8-like (3 temporal) and VP9-like (2 temporal x 3 spatial) streams; real Write/adjustLayer/handleReport/replaceTracks executions are validated by TLC, L7 on the real ceiling value.",
          "sequential interleavings only: the Write-vs-adjustLayer data race on the packed layer word (F16) is not exercised"),
+ "C05": ("model_checking",
+         "Cache.tla's ring part (Store/Get/GetAt/Resize/ResizeCond transcribed from packetcache.go) is checked exhaustively -- every store/resize history over a 4-value number space incl. the wrap, capacities 1..3, closes without a length bound -- against the C05 monitor evaluated over every lookup the API offers after every step; TLC-simulated behaviours at the real constants and seeded histories (capacities to 65535, sizes 1..1504) are executed on the real cache and validated by TLC; thorough adds one writer + concurrent readers under the race detector.",
+         "byte identity is mapped to content ids by the Go harness; concurrency is covered by the race detector and fidelity checks in the thorough tier, not by the model"),
+ "C06": ("model_checking",
+         "Cache.tla's accounting part (RFC 3550 counters, 32-bit loss bitmap, the receive loop's NACK decision) is checked against N1-N4/S1-S3: steady streams exhaustively, lossy/late/restart histories breadth-first under a time budget; the faithful switch re-finds the repaired finding F20; real Store/BitmapGet/Expect/GetStats/ToBitmap executions at the real constants are validated by TLC.",
+         "readLoop/nackWriter read from a pion TrackRemote and are not driven directly: the driver executes the loop's arithmetic as transcribed in the spec"),
 }
 REASON_DEFAULT = "check under construction (not yet registered); see DESIGN.md section 5"
 NA = {}
